@@ -14,12 +14,21 @@
       call graph unfolds to a tree): `C05_tree_order_independent` (+ `_fulls`): the SET of names
       reported for a root is the same under any two root orders (and after any earlier
       generation: `C05_tree_unrelated_roots`).
+    * FILE stage (S4), all function bodies: `C05_function_analysis_keeps_context` (analysing a
+      function never changes the shared context — a local `del x` / `x = …` of a name spelt like a
+      module-level name stays local), hence `C05_funcdef_effect_depends_on_context_only`,
+      `C05_funcdefs_order_independent` (any permutation of the module-level function definitions
+      gives the same IR under every key) and `C05_funcdefs_unrelated` (added definitions).
+    * HISTORY (several analyses in one process; multi-file programs = roots ⊂ keys):
+      `C05_cex_history_carried_import_ir` (IRs of a followed import surviving into the next analysis
+      change its results), `C05_tree_history_independent` (+ `_ok`): in the tree fragment they do not.
 -/
 import RattrProofs.Lemmas.Results
 import RattrProofs.Lemmas.ResultsCex
 import RattrProofs.Lemmas.ResultsDepthOne
 import RattrProofs.Lemmas.ResultsTree
 import RattrProofs.Lemmas.ResultsTreeCheck
+import RattrProofs.Lemmas.FileOrder
 
 namespace Rattr.C05
 open Rattr Rattr.Results Rattr.Cex
@@ -175,5 +184,211 @@ example : TreeLike Pchain ∧ CidArgs Pchain ∧
     setsOf Ptree σtree [4, 3, 1, 2, 0] 0 = some [s "p.x"] :=
   ⟨Pchain_treeLike, Schain_hyps0.cid, by decide +kernel, by decide +kernel,
    Ptree_treeLike, Stree_hyps0.cid, by decide +kernel, by decide +kernel⟩
+
+/-! ### definition order at the FILE stage (S4): the IR of a function does not depend on which
+functions were analysed before it
+
+All functions of a file are analysed against ONE shared context object, in definition order. The
+model threads that object through the walk (`FileA.FState.ctx`), so "the analysis of one function
+cannot change what a later one sees" is a theorem about the model, not a modelling choice: it holds
+because `Context.add` / `Context.remove` only ever touch the innermost scope and a function body is
+analysed in a scope of its own (`FnA.analyse_ctx`, Lemmas/VisitFrame.lean — a `del x` of a name the
+function does not declare itself must NOT fall through to the module-level `x`). -/
+
+/-- `FunctionAnalyser(fn, context).analyse()` hands the context back unchanged, whatever the body
+binds or unbinds (`x = …`, `del x`, `for x in`, `with … as x`, walrus, nested def, parameters — of
+names that are also module-level names or not). -/
+theorem C05_function_analysis_keeps_context (env : FnA.Env) (mn : Str) (root : Context) (ps : Params)
+    (body : List Node) (s' : St) (h : FnA.analyse env mn root ps body = .ok s') : s'.ctx = root :=
+  FnA.analyse_ctx env mn root ps body s' h
+
+/-- What one module-level `def` does is a function of the CONTEXT alone: if it ends normally from
+some state, then from every state with the same context it ends normally, leaves the context as it
+was, performs the same single update `file_ir[key] = ir` (or none) and appends the same diagnostics. -/
+theorem C05_funcdef_effect_depends_on_context_only (env : FnA.Env) (mn : Str) (f : Facts) (name : Str)
+    (ps : Params) (body : List Node) (decos : List Ann.Deco) (s s' : FileA.FState)
+    (h : FileA.visitFuncDef env mn f name ps body decos s = .ok s') :
+    ∃ u ds, ∀ s₂ : FileA.FState, s₂.ctx = s.ctx →
+      FileA.visitFuncDef env mn f name ps body decos s₂ =
+        .ok { ctx := s.ctx, ir := FileA.applyU u s₂.ir, diags := s₂.diags ++ ds } :=
+  FileA.visitFuncDef_uniform env mn f name ps body decos s s' h
+
+/-- ORDER INDEPENDENCE of the file walk over function definitions: any two orders (same members)
+of the module-level function definitions, walked from the same state, end with the same context and
+the same IR under every key of the FileIr. `Unambiguous`: two definitions that store the same key
+store the same IR (true when the defined names are distinct). -/
+theorem C05_funcdefs_order_independent (env : FnA.Env) (mn : Str) (f : Facts) (defs₁ defs₂ : List Top)
+    (hperm : defs₁.Perm defs₂) (hall : ∀ t ∈ defs₁, FileA.isFuncDef t = true)
+    (s a b : FileA.FState) (hU : FileA.Unambiguous env mn f s.ctx defs₁)
+    (h₁ : FileA.visitTops env mn f defs₁ s = .ok a) (h₂ : FileA.visitTops env mn f defs₂ s = .ok b) :
+    a.ctx = b.ctx ∧ ∀ key, Dict.get? a.ir key = Dict.get? b.ir key :=
+  FileA.funcDefs_order_independent env mn f defs₁ defs₂ (fun _ => hperm.mem_iff) hall s a b hU h₁ h₂
+
+/-- UNRELATED CODE at the file stage: function definitions added anywhere (before, between, after)
+do not change the IR stored under a key none of the added definitions stores. -/
+theorem C05_funcdefs_unrelated (env : FnA.Env) (mn : Str) (f : Facts) (defs extra : List Top)
+    (hsub : ∀ t ∈ defs, t ∈ extra) (hall : ∀ t ∈ extra, FileA.isFuncDef t = true)
+    (s a b : FileA.FState) (hU : FileA.Unambiguous env mn f s.ctx extra)
+    (h₁ : FileA.visitTops env mn f defs s = .ok a) (h₂ : FileA.visitTops env mn f extra s = .ok b)
+    (key : Sym) (hkey : ∀ t ∈ extra, t ∉ defs → ∀ ir, ¬ FileA.Stores env mn f s.ctx t key ir) :
+    Dict.get? a.ir key = Dict.get? b.ir key :=
+  FileA.funcDefs_unrelated env mn f defs extra hsub hall s a b hU h₁ h₂ key hkey
+
+/-! #### a concrete walk: a local `del` of a name spelt like a module-level function
+
+`def load(source): return source.payload` · `def refresh(cache): load = cache.pending;
+cache.total = load.size; del load` · `def fetch(request): return load(request.body)` -/
+
+def envT : FnA.Env := ⟨⟨[], []⟩, []⟩
+def prm (l : List String) : Params := ⟨[], l.map s, none, [], none⟩
+def fnSym (n : String) (ps : List String) : Sym :=
+  { kind := .func, name := s n, callable := true, iface := some (prm ps).iface }
+def loadSym : Sym := fnSym "load" ["source"]
+def refreshSym : Sym := fnSym "refresh" ["cache"]
+def fetchSym : Sym := fnSym "fetch" ["request"]
+def rootT : Context := [[(s "load", loadSym), (s "refresh", refreshSym), (s "fetch", fetchSym)]]
+def nmL (x : String) : Node := .name (s x) .load
+def dLoad : Top := .funcDef (s "load") (prm ["source"]) [.ret [.attr (nmL "source") (s "payload") .load]] [] false
+def dRefresh : Top := .funcDef (s "refresh") (prm ["cache"])
+  [ .assign [.name (s "load") .store] (.attr (nmL "cache") (s "pending") .load),
+    .assign [.attr (nmL "cache") (s "total") .store] (.attr (nmL "load") (s "size") .load),
+    .delete [.name (s "load") .del] ] [] false
+def dFetch : Top := .funcDef (s "fetch") (prm ["request"])
+  [.ret [.call (nmL "load") [.attr (nmL "request") (s "body") .load] [] []]] [] false
+
+/-- the FileIr entry of `key` and the final context after walking `defs` from the root context -/
+def walkT (defs : List Top) (key : Sym) : Option (Option IR × Context) :=
+  match FileA.visitTops envT [] {} defs { ctx := rootT } with
+  | .ok st => some (Dict.get? st.ir key, st.ctx)
+  | _ => none
+
+/-- TEST: in every one of the six definition orders `fetch`'s IR is the same, its call to `load` is
+resolved to the module-level function, and the root context comes back unchanged. -/
+theorem C05_test_local_del_of_module_level_name :
+    (walkT [dLoad, dRefresh, dFetch] fetchSym).isSome = true ∧
+    walkT [dLoad, dFetch, dRefresh] fetchSym = walkT [dLoad, dRefresh, dFetch] fetchSym ∧
+    walkT [dRefresh, dLoad, dFetch] fetchSym = walkT [dLoad, dRefresh, dFetch] fetchSym ∧
+    walkT [dRefresh, dFetch, dLoad] fetchSym = walkT [dLoad, dRefresh, dFetch] fetchSym ∧
+    walkT [dFetch, dLoad, dRefresh] fetchSym = walkT [dLoad, dRefresh, dFetch] fetchSym ∧
+    walkT [dFetch, dRefresh, dLoad] fetchSym = walkT [dLoad, dRefresh, dFetch] fetchSym ∧
+    ((walkT [dRefresh, dFetch, dLoad] fetchSym).map fun p => (p.1.map fun ir => ir.calls.map (·.target), p.2)) =
+      some (some [some loadSym], rootT) := by
+  refine ⟨?_, ?_, ?_, ?_, ?_, ?_, ?_⟩ <;> decide +kernel
+
+/-- non-vacuity of `C05_funcdefs_order_independent` / `C05_funcdefs_unrelated`: the three definitions
+are function definitions, unambiguous in the root context (they store three different keys), and the
+walk ends normally in both orders; `refresh` — which `fetch` does not call — stores another key. -/
+example : (∀ t ∈ [dLoad, dRefresh, dFetch], FileA.isFuncDef t = true) ∧
+    FileA.Unambiguous envT [] {} rootT [dLoad, dRefresh, dFetch] ∧
+    (walkT [dLoad, dRefresh, dFetch] fetchSym).isSome = true ∧
+    (walkT [dFetch, dRefresh, dLoad] fetchSym).isSome = true ∧
+    FileA.storedKey envT [] {} rootT dRefresh = some refreshSym ∧
+    FileA.storedKey envT [] {} rootT dFetch = some fetchSym :=
+  ⟨by intro t ht; simp at ht; rcases ht with rfl | rfl | rfl <;> rfl,
+   FileA.unambiguous_of_pairwise envT [] {} rootT _ (by decide +kernel),
+   by decide +kernel, by decide +kernel, by decide +kernel, by decide +kernel⟩
+
+/-! ### analyses repeated in one process (“whether or not results were already generated once”)
+
+`generate_results_from_ir` mutates the IRs it is given (C14). The code builds fresh IRs for every
+analysis, so every analysis starts from the own store `σ`: that is a function of the sources, and
+determinism is structural. What would happen if IRs survived from one analysis to the next — e.g.
+the IR of a followed import memoised per file — is `carry`: the entries of the surviving keys as
+the earlier generation left them. Outside the tree fragment that changes results
+(`C05_cex_history_carried_import_ir`); inside it the SET of names reported for a root is the same
+whatever earlier generations left in whichever entries (`C05_tree_history_independent`). -/
+
+/-- the store the next analysis starts from when the entries of the keys in `kept` survive the
+earlier analysis (final store `σ₁`) and every other function is analysed afresh (own store `σ₀`). -/
+def carry (kept : Key → Bool) (σ₀ σ₁ : Store) : Store := fun k => if kept k then σ₁ k else σ₀ k
+
+/-- the final store of a generation (the given store on failure). -/
+def storeOf (P : Prog) (σ : Store) (order : List Key) : Store :=
+  match generate P order σ with
+  | .ok (_, σ') => σ'
+  | _ => σ
+
+/-- target: `both(first, second): plumbing.describe(first); plumbing.summarise(second)` ·
+`only(third): plumbing.summarise(third)`; followed import `plumbing`: `describe(item): read_tag(item)` ·
+`summarise(item): read_tag(item)` · `read_tag(item): item.tag`. Keys 0 both, 1 only (the roots: the
+target's functions), 2 describe, 3 summarise, 4 read_tag; the two `read_tag(item)` records are EQUAL
+symbols (cid 3). -/
+def Ph : Prog := {
+  fns := [ ⟨iface ["first", "second"], [call 0 "plumbing.describe" ["first"], call 1 "plumbing.summarise" ["second"]]⟩,
+           ⟨iface ["third"], [call 2 "plumbing.summarise" ["third"]]⟩,
+           ⟨iface ["item"], [call 3 "read_tag" ["item"]]⟩, ⟨iface ["item"], [call 3 "read_tag" ["item"]]⟩,
+           ⟨iface ["item"], []⟩ ],
+  resolve := fun c => match c with | 0 => some 2 | 1 => some 3 | 2 => some 3 | 3 => some 4 | _ => none }
+def σh : Store := fun k => match k with
+  | 0 => ⟨[nm "first" "first", nm "second" "second"], [], []⟩
+  | 1 => ⟨[nm "third" "third"], [], []⟩
+  | 2 => ⟨[nm "item" "item"], [], []⟩
+  | 3 => ⟨[nm "item" "item"], [], []⟩
+  | 4 => ⟨[nm "item.tag" "item"], [], []⟩
+  | _ => IrSets.empty
+
+/-- the functions of the followed import -/
+def importKeys : Key → Bool := fun k => decide (2 ≤ k)
+
+/-- A multi-file program (roots = the target's functions only): analysed afresh, `both` reports
+`first.tag` only (the second `read_tag(item)` is cut by `seen`); analysed again with the IRs of the
+import's functions carried over from the first analysis, `both` also reports `second.tag`. -/
+theorem C05_cex_history_carried_import_ir :
+    getsOf Ph σh [0, 1] 0 = some [s "first", s "second", s "first.tag"] ∧
+    getsOf Ph (carry importKeys σh (storeOf Ph σh [0, 1])) [0, 1] 0 =
+      some [s "first", s "second", s "first.tag", s "second.tag"] := by decide +kernel
+
+/-- … and nothing else than the carried entries is needed for that: carrying NO entry is the fresh
+analysis (what the code does: every analysis builds its IRs anew). -/
+theorem C05_carry_nothing (σ₀ σ₁ : Store) : carry (fun _ => false) σ₀ σ₁ = σ₀ := by
+  funext k; simp [carry]
+
+theorem StoreInv.carry {P : Prog} {own σ₁ : Store} (kept : Key → Bool) (h : StoreInv P own σ₁) :
+    StoreInv P own (carry kept own σ₁) := by
+  refine ⟨?_, ?_⟩
+  · intro g k x hx
+    unfold C05.carry
+    split
+    · exact h.1 g k x hx
+    · exact hx
+  · intro g k x hx
+    unfold C05.carry at hx
+    split at hx
+    · exact h.2 g k x hx
+    · exact Clo.own hx
+
+/-- HISTORY INDEPENDENCE in the tree fragment: let any sequence of roots `o₀` be generated first
+(an earlier analysis in the same process) and let the entries of ANY set of keys survive into the
+next analysis; then the set of names that analysis reports for a root is the set the fresh analysis
+reports. -/
+theorem C05_tree_history_independent (P : Prog) (hT : TreeLike P) (hC : CidArgs P) (σ : Store)
+    (o₀ o : List Key) (kept : Key → Bool) (rs₀ rs rs' : List (Key × IrSets)) (σ₀ σ₁ σ₂ : Store)
+    (h₀ : generate P o₀ σ = .ok (rs₀, σ₀))
+    (h₁ : generate P o (carry kept σ σ₀) = .ok (rs, σ₁))
+    (h₂ : generate P o σ = .ok (rs', σ₂))
+    (f : Key) (res res' : IrSets) (m : (f, res) ∈ rs) (m' : (f, res') ∈ rs') (x : NameS) :
+    (x ∈ res.gets ↔ x ∈ res'.gets) ∧ (x ∈ res.sets ↔ x ∈ res'.sets) ∧
+    (x ∈ res.dels ↔ x ∈ res'.dels) := by
+  obtain ⟨_, _, inv₀, _⟩ := generate_tree hT.2 hC o₀ σ σ₀ rs₀ (StoreInv.refl P σ) h₀
+  obtain ⟨_, a, _⟩ := generate_tree hT.2 hC o _ σ₁ rs (StoreInv.carry kept inv₀) h₁
+  obtain ⟨_, b, _⟩ := generate_tree hT.2 hC o σ σ₂ rs' (StoreInv.refl P σ) h₂
+  have key : ∀ k : Kind, x ∈ res.of k ↔ x ∈ res'.of k :=
+    fun k => (a f res m k x).trans (b f res' m' k x).symm
+  exact ⟨key .get, key .set, key .del⟩
+
+/-- … and that next analysis does succeed (under the `NoFail` hypothesis of the C03 tree theorem). -/
+theorem C05_tree_history_ok (P : Prog) (hT : TreeLike P) (hC : CidArgs P) (σ : Store) (hN : NoFail P σ)
+    (o₀ o : List Key) (kept : Key → Bool) (rs₀ : List (Key × IrSets)) (σ₀ : Store)
+    (h₀ : generate P o₀ σ = .ok (rs₀, σ₀)) :
+    ∃ rs σ₁, generate P o (carry kept σ σ₀) = .ok (rs, σ₁) := by
+  obtain ⟨_, _, inv₀, _⟩ := generate_tree hT.2 hC o₀ σ σ₀ rs₀ (StoreInv.refl P σ) h₀
+  exact generate_tree_ok hT.2 hC hN o _ (StoreInv.carry kept inv₀)
+
+/-- non-vacuity: the 4-function chain with roots {0} and the entries of keys 1-3 ("the import")
+carried over from an earlier generation of all four: same result as afresh. -/
+example : TreeLike Pchain ∧ CidArgs Pchain ∧
+    getsOf Pchain (carry (fun k => decide (1 ≤ k)) σchain (storeOf Pchain σchain [3, 2, 1, 0])) [0] 0 =
+      getsOf Pchain σchain [0] 0 :=
+  ⟨Pchain_treeLike, Schain_hyps0.cid, by decide +kernel⟩
 
 end Rattr.C05
